@@ -169,16 +169,20 @@ ARR_KEYS = ["aws_batch", "k8s", "gcp_batch"]
 ARR_WITNESS = ["S", "A0>len", "S", "A0", "M0*"]
 
 
-def execute_arr(key, info, cnt, njobs, kind, script, rng=None, max_random=0, force=True):
+def execute_arr(key, info, cnt, njobs, kind, script, rng=None, max_random=0, force=True, program=None):
     """Arraying ON (min_array_size > 1, every description immediately stale): scheduler thread S, arrayer
     thread(s) A*, monitor thread(s) M*.  Scheduling points: every acquisition of arrayer._lock, the
     arrayer's idle loop, the monitor's guard / snapshot / pop lines and - when the decrement of
     num_pending is not under the lock - the len(jobs) call inside that statement.
     script items: "T" (one step), "T>kind" (step T until it is paused at a point of that kind),
     "T*" (run T until done; a blocked join is served by finishing the arrayer threads first)."""
-    ainfo = dict(info, arr=cnt)
+    ainfo = dict(info, arr=cnt, program=program)
+    if program:
+        njobs = sum(1 for p in program if p[0] == "job")
     out = Outcome(key, njobs, kind, [])
     out.counter_bad = None
+    out.program = program
+    out.live = None
     run = D.Run(key, ainfo, REPO, njobs)
     try:
         def live(name):
@@ -212,7 +216,16 @@ def execute_arr(key, info, cnt, njobs, kind, script, rng=None, max_random=0, for
                     out.sched.append(name)
             return status
         for item in script:
-            if item.endswith("*"):
+            if item == "idle":
+                # everything but the scheduler thread runs (round robin) until every monitor has shut down
+                for _ in range(120):
+                    ms = [n for n in run.threads() if n[0] == "M"]
+                    if not ms:
+                        break
+                    for n in [t for t in run.threads() if t != "S"]:
+                        if live(n):
+                            do(n)
+            elif item.endswith("*"):
                 n = item[:-1]
                 for _ in range(60):
                     if not live(n):
@@ -237,12 +250,20 @@ def execute_arr(key, info, cnt, njobs, kind, script, rng=None, max_random=0, for
                 cur = rng.choice(lv)
             do(cur)
         fuel = 900
+        same = 0
+        last = None
         while fuel > 0 and run.threads():       # fair finish: round robin, scheduler thread first
             for n in run.threads():
                 fuel -= 1
                 if live(n):
                     do(n)
+            now = (run.ad.observe(), tuple(run.threads()))
+            same = same + 1 if now == last else 0
+            last = now
+            if same >= 25 and "S" not in run.threads() and not any(t[0] == "A" for t in run.threads()):
+                break       # only monitors are left and they poll without any effect
         out.done = run.done()
+        out.live = run.threads()
         out.final = run.ad.observe()
     except Exception as e:  # noqa: BLE001
         out.error = repr(e)
@@ -263,6 +284,12 @@ def classify_arr(info, out):
     if o["err"]:
         return f"{cls}:monitor-error", "a thread raised and called reject_job(None, error)"
     lost = [j for j in range(out.njobs) if j not in rep]
+    if lost and not out.done and out.live is not None and "S" not in out.live \
+            and not any(t[0] == "A" for t in out.live) and all(j in o["held"] for j in lost):
+        return (f"{cls}:lost-job:stuck-in-arrayer:no-arrayer-thread",
+                f"job(s) {lost} submitted but never handed to the backend nor reported: they sit in arrayer.pending "
+                f"(num_pending == {o['num_pending']}) and no arrayer thread is alive (the thread started by add_job() "
+                f"returned at once: _exit_flag still set from an earlier stop()); the monitor polls for ever")
     if not lost or not out.done:
         return None     # undecided executions (fuel) are not findings
     if o["num_pending"] != len(o["held"]):
@@ -280,7 +307,8 @@ class Check(PropertyCheck):
                 "C10_refuted_aws_glue", "C10_refuted_aws_glue_single", "C10_loses_refutes",
                 "C10_holds_fixed", "C10_fixed_bounded", "C10_fixed_progress", "C10_quiescent_terminal",
                 "C10_counter_exact", "C10_counter_exit_safe", "C10_counter_refuted_unlocked",
-                "C10_counter_locked_never_loses"]
+                "C10_counter_locked_never_loses", "C10_arrayer_armed", "C10_arrayer_all_submitted",
+                "C10_arrayer_refuted_clear_in_stop", "C10_arrayer_shipped_never_loses"]
     extra_modules = ["Model.Monitor"]
     allowed_axioms = []
     section_premises = []
@@ -382,6 +410,23 @@ class Check(PropertyCheck):
             for i in range(nrand):
                 outs.append(execute_arr(key, info, cnt, self.rng.choice([2, 2, 3]), "arr-random", [], rng=self.rng,
                                         max_random=self.rng.choice([8, 20, 40])))
+            # several waves separated by idle periods in which the monitor shuts down (Model/ArrLife.v)
+            scriptable = key in ("aws_batch", "k8s")
+            outs.append(execute_arr(key, info, cnt, 0, "arr-wave-stop", ["S", "idle", "S", "S"],
+                                    program=[("job", False), ("stop",), ("job", False)]))
+            outs.append(execute_arr(key, info, cnt, 0, "arr-wave-stop2", ["S", "idle", "S", "S", "S"],
+                                    program=[("job", False), ("stop",), ("stop",), ("job", False)]))
+            if scriptable:
+                outs.append(execute_arr(key, info, cnt, 0, "arr-wave-script", ["idle", "S", "S"],
+                                        program=[("job", True), ("wait",), ("job", False)]))
+            for i in range(4 if self.tier == "quick" else 60):
+                prog = []
+                for _ in range(self.rng.randint(2, 5)):
+                    r = self.rng.random()
+                    prog.append(("job", scriptable and r < 0.25) if r < 0.6 else (("stop",) if r < 0.8 else ("wait",)))
+                prog.append(("job", False))
+                outs.append(execute_arr(key, info, cnt, 0, "arr-waves-random", ["S", "idle"] * (len(prog) + 1),
+                                        program=prog))
         self.arr_outs = outs
         return outs
 
@@ -459,7 +504,8 @@ class Check(PropertyCheck):
                 self.findings.append(Finding(c[0], f"{info['cls']} ({info['file']} + redun/job_array.py): {c[1]}; e.g. "
                                              f"{o.njobs} job(s), thread schedule {' '.join(o.sched)}",
                                              {"kind": "arr-schedule", "executor": o.key, "njobs": o.njobs,
-                                              "schedule": o.sched, "final": o.final, "expect": c[0]}))
+                                              "program": o.program, "schedule": o.sched, "final": o.final,
+                                              "expect": c[0]}))
         if cnt["locked"]:
             bad = [o for o in arr if o.counter_bad]
             self.ob("correspondence", f"real JobArrayer: num_pending == number of jobs held whenever the arrayer thread is "
@@ -471,6 +517,12 @@ class Check(PropertyCheck):
             self.ob("correspondence", "the witness of C10_counter_refuted_unlocked (lost update of num_pending) reproduces on "
                     "the real classes", len(hit) == len(wit) and bool(wit),
                     "; ".join(f"{o.key}: final {o.final} error {o.error}" for o in wit if o not in hit))
+        if self.info["_life"] != "ClearInStart":
+            wit = [o for o in arr if o.kind.startswith("arr-wave-")]
+            hit = [o for o in wit if (classify_arr(self.info[o.key], o) or ("",))[0].endswith("no-arrayer-thread")]
+            self.ob("correspondence", "the witness of C10_arrayer_refuted_clear_in_stop (stop() without a live arrayer "
+                    "thread, then a regular job) reproduces on the real classes", bool(hit),
+                    "; ".join(f"{o.key} {o.kind}: final {o.final} error {o.error}" for o in wit if o not in hit)[:1500])
         self.ob("oracle", f"implementation oracle (every submitted job reported exactly once at quiescence) ran on "
                 f"{n} executions of the real executor classes", True)
 
@@ -505,7 +557,7 @@ class Check(PropertyCheck):
         if r.get("kind") == "arr-schedule":
             _, info = tr_monitor.translate()
             o = execute_arr(r["executor"], info[r["executor"]], info["_counter"], r["njobs"], "replay", r["schedule"],
-                            force=False)
+                            force=False, program=[tuple(p) for p in r["program"]] if r.get("program") else None)
             c = classify_arr(info[r["executor"]], o)
             print("replay:", r["executor"], "(job arraying on) jobs", r["njobs"], "schedule", " ".join(o.sched))
             print("replay: final state", o.final, "all threads finished:", o.done)
